@@ -3,10 +3,10 @@
 package main
 
 import (
-	"runtime"
 	"bytes"
 	"fmt"
 	"math/big"
+	"runtime"
 	"strings"
 
 	"github.com/onflow/crypto"
@@ -328,7 +328,7 @@ func genC04(c *Ctx) {
 			if err != nil {
 				return "err " + errClass(err)
 			}
-			return "ok " + hx(s)
+			return "ok " + hx(hold("AggregateBLSSignatures", s))
 		})
 		c.Case("agg-sig", "agg.sig "+strings.Join(sigHex, " "), aggAns)
 		sum := new(big.Int)
@@ -473,6 +473,57 @@ func genC04(c *Ctx) {
 			}))
 		}
 	}
+	genAggLengths(c)
+	// call histories on one OS thread: an accepted aggregation, an aggregation REJECTED for an entry that fails only
+	// after decompression has begun (x >= p, x not on the curve, flag combinations), then aggregations of the entries
+	// accepted before (a memo of the last decompressed point that a rejected entry leaves half-updated)
+	{
+		done := make(chan struct{})
+		go func() {
+			defer close(done)
+			runtime.LockOSThread()
+			defer runtime.UnlockOSThread()
+			h := crypto.NewExpandMsgXOFKMAC128("agg-history")
+			msg := c.bytes(12)
+			k1, k2 := c.randScalar(), c.randScalar()
+			s1, _ := skFromInt(k1).Sign(msg, h)
+			s2, _ := skFromInt(k2).Sign(msg, h)
+			notOnCurve := append([]byte{}, s2...)
+			for try := 0; try < 64; try++ { // an abscissa that is not on the curve: half of all candidates
+				notOnCurve[47] = byte(try)
+				if _, err := crypto.AggregateBLSSignatures([]crypto.Signature{notOnCurve}); err != nil {
+					break
+				}
+			}
+			xGeP := append([]byte{}, be(new(big.Int).Add(blsP, big.NewInt(3)), 48)...)
+			xGeP[0] |= 0x80
+			flags := append([]byte{}, s2...)
+			flags[0] |= 0x40
+			bads := [][]byte{notOnCurve, xGeP, flags, s2[:47], crypto.BLSInvalidSignature()}
+			agg := func(class string, list []crypto.Signature) {
+				var bh []string
+				for _, s := range list {
+					bh = append(bh, hx(s))
+				}
+				c.Case("agg-history/"+class, "agg.sig "+strings.Join(bh, " "), guard(func() string {
+					s, err := crypto.AggregateBLSSignatures(list)
+					if err != nil {
+						return "err " + errClass(err)
+					}
+					return "ok " + hx(hold("AggregateBLSSignatures", s))
+				}))
+			}
+			for _, bad := range bads {
+				agg("accepted", []crypto.Signature{s2, s1})
+				agg("rejected", []crypto.Signature{s2, bad})
+				agg("single-after-rejected", []crypto.Signature{s1})
+				agg("accepted-again", []crypto.Signature{s2, s1})
+				agg("rejected-first-entry", []crypto.Signature{bad, s1})
+				agg("pair-after-rejected", []crypto.Signature{s1, s2})
+			}
+		}()
+		<-done
+	}
 	// documented errors
 	c.Case("errors", "expect EmptyList EmptyList EmptyList NotBLSKey NotBLSKey NotBLSKey #", guard(func() string {
 		_, e1 := crypto.AggregateBLSSignatures(nil)
@@ -561,7 +612,7 @@ func genC16(c *Ctx) {
 		c.Case("pop-other-key", "bls.verify 0x"+other.k.Text(16)+" "+hx(ohp)+" "+hx(pop), guard(func() string { return boolAns(crypto.BLSVerifyPOP(other.pk, pop)) }))
 		// candidate strings
 		for _, cc := range sortedCands(c.candidateSigs(pop, hpop, 4)) {
-				class, cands := cc.class, cc.cands
+			class, cands := cc.class, cc.cands
 			for _, cand := range cands {
 				c.Case("pop-candidate/"+class, "bls.verify "+ks+" "+hx(hpop)+" "+hx(cand), guard(func() string { return boolAns(crypto.BLSVerifyPOP(key.pk, cand)) }))
 			}
@@ -717,4 +768,44 @@ func genC17(c *Ctx) {
 		_, e4 := crypto.SPOCKVerify(bk.PublicKey(), pr, ec.PublicKey(), pr)
 		return strings.Join([]string{errClass(e1), errClass(e2), errClass(e3), errClass(e4)}, " ")
 	}))
+}
+
+// genAggLengths: lists whose entries have wrong lengths that add up to the right total (a check on the flattened length
+// only would re-cut them into valid encodings): 47+49, 49+47, 0+96, 1+95, 96+0, 24+24+48, three-way 40+50+54
+func genAggLengths(c *Ctx) {
+	h := crypto.NewExpandMsgXOFKMAC128("lengths")
+	msg := c.bytes(9)
+	a, _ := skFromInt(c.randScalar()).Sign(msg, h)
+	b, _ := skFromInt(c.randScalar()).Sign(msg, h)
+	d, _ := skFromInt(c.randScalar()).Sign(msg, h)
+	ab := append(append([]byte{}, a...), b...)
+	abd := append(append([]byte{}, ab...), d...)
+	for _, cuts := range [][]int{{47, 96}, {49, 96}, {0, 96}, {1, 96}, {96, 96}, {24, 48, 96}, {95, 96}} {
+		var list []crypto.Signature
+		prev := 0
+		for _, cut := range cuts {
+			list = append(list, crypto.Signature(ab[prev:cut]))
+			prev = cut
+		}
+		var bh []string
+		for _, s := range list {
+			bh = append(bh, hx(s))
+		}
+		c.Case("agg-sig-compensating-lengths", "agg.sig "+strings.Join(bh, " "), guard(func() string {
+			s, err := crypto.AggregateBLSSignatures(list)
+			if err != nil {
+				return "err " + errClass(err)
+			}
+			return "ok " + hx(s)
+		}))
+	}
+	list3 := []crypto.Signature{abd[:40], abd[40:90], abd[90:]}
+	c.Case("agg-sig-compensating-lengths", "agg.sig "+hx(list3[0])+" "+hx(list3[1])+" "+hx(list3[2]), guard(func() string {
+		s, err := crypto.AggregateBLSSignatures(list3)
+		if err != nil {
+			return "err " + errClass(err)
+		}
+		return "ok " + hx(s)
+	}))
+
 }
